@@ -37,7 +37,7 @@ def polls_of_field(f, field):
 
 
 def C07_1_2(ctx, facts):
-    f = facts.method("server::GracefulShutdown", "Future", "poll")
+    f = facts.unit(facts.method("server::GracefulShutdown", "Future", "poll"))
     ctx.touched(f)
     sig_polls = polls_of_field(f, "signal")
     once = f.calls("server::Serving::poll_once")
@@ -95,7 +95,7 @@ def C07_1_2(ctx, facts):
 
 
 def C07_3(ctx, facts):
-    f = facts.method("server::GracefulShutdown", "Future", "poll")
+    f = facts.unit(facts.method("server::GracefulShutdown", "Future", "poll"))
     news = f.calls("server::conn::drivers::GracefulConnectionDriver::new")
     execs = [c for c in f.calls() if norm(c.decl or c.name).endswith("Executor::execute")]
     ctx.floor("GracefulShutdown::poll|driver-new", len(news), 1, "GracefulConnectionDriver::new")
@@ -113,7 +113,7 @@ def C07_3(ctx, facts):
                   "GracefulConnectionDriver::new|shutdown-rx", "its shutdown receiver is a clone of the server's `channel`", "shutdown roots %s" % sorted(map(repr, sig(r1))), c.where())
         ctx.check(any(r.kind == "arg" and r.desc.endswith(".connection") for r in r2) and not any(r.kind == "arg" and r.desc.endswith(".shutdown") for r in r2),
                   "GracefulConnectionDriver::new|finished-tx", "its finished sender is a clone of the server's `connection` token", "finished roots %s" % sorted(map(repr, sig(r2))), c.where())
-    g = facts.fn("server::GracefulShutdown::new")
+    g = facts.unit(facts.fn("server::GracefulShutdown::new"))
     ctx.touched(g)
     for (b, i, s) in g.aggregates("server::GracefulShutdown"):
         r = s["r"]
@@ -127,7 +127,7 @@ def C07_3(ctx, facts):
         ctx.check(ok, "GracefulShutdown::new|pairs", "channel/shutdown come from one close() pair and finished/connection from another",
                   "close() pairing is %s" % cs, g.where(b))
         ctx.check(any(x.kind == "arg" and x.desc == "signal" for x in g.roots(ops["signal"])), "GracefulShutdown::new|signal", "the signal future is the caller's", "signal roots differ", g.where(b))
-    cl = facts.fn("server::close")
+    cl = facts.unit(facts.fn("server::close"))
     rr = cl.roots({"l": 0, "p": []})
     chans = {x.site.bb for x in rr if x.kind == "call" and x.site.is_("tokio::sync::watch::channel")}
     ctx.check(len(chans) == 1, "close|one-channel", "close() returns both halves of one watch channel", "close() uses %d channels" % len(chans), cl.where())
@@ -138,7 +138,7 @@ def C07_4(ctx, facts):
     ty = {fl["name"]: fl["ty"] for fl in adt["variants"][0]["fields"]} if adt else {}
     ctx.check(ty.get("shutdown", "").startswith("futures_util::future::Fuse<") or "::Fuse<" in ty.get("shutdown", ""), "GracefulConnectionDriver|fused",
               "the driver's shutdown future is fused (graceful_shutdown is requested once; afterwards it is never Ready again)", "shutdown field has type %s" % ty.get("shutdown"))
-    f = facts.method("server::conn::drivers::GracefulConnectionDriver", "Future", "poll")
+    f = facts.unit(facts.method("server::conn::drivers::GracefulConnectionDriver", "Future", "poll"))
     ctx.touched(f)
     cp = polls_of_field(f, "conn")
     shp = polls_of_field(f, "shutdown")
@@ -169,7 +169,7 @@ def C07_4(ctx, facts):
         ok, w = f.must_pass(b, f.returns, {c.bb for c in fin})
         ctx.check(ok, "GracefulConnectionDriver::poll|finished-sent", "completion is signalled (finished.send()) before returning Ready", "Ready returned without finished.send()", f.where(a), f.path_desc(w))
     pool2.waker_rule(ctx, f, "GracefulConnectionDriver::poll")
-    n = facts.fn("server::conn::drivers::GracefulConnectionDriver::new")
+    n = facts.unit(facts.fn("server::conn::drivers::GracefulConnectionDriver::new"))
     for (b, i, s) in n.aggregates("server::conn::drivers::GracefulConnectionDriver"):
         r = s["r"]
         ops = dict(zip(r["fields"], r["ops"]))
@@ -181,7 +181,7 @@ def C07_4(ctx, facts):
 
 
 def C07_5(ctx, facts):
-    f = facts.method("server::conn::auto::UpgradableConnection", "Connection", "graceful_shutdown")
+    f = facts.unit(facts.method("server::conn::auto::UpgradableConnection", "Connection", "graceful_shutdown"))
     ctx.touched(f)
     sw, reg = arms(f, "ConnectionStateProject")
     want = {"Http1": r"hyper::server::conn::http1::UpgradeableConnection::graceful_shutdown$",
@@ -212,13 +212,13 @@ def C07_5(ctx, facts):
         ctx.check(ok, "Connection::graceful_shutdown|%s" % st.split("::")[-2], "delegates to hyper's inherent graceful_shutdown (no self-recursion)",
                   "calls %s" % [norm(c.name) for c in cs], g.where())
     ctx.floor("Connection::graceful_shutdown|hyper-impls", n, 2, "Connection impls for hyper's connection types")
-    cg = facts.method("ouroboros_impl_connecting::Connecting", "Connection", "graceful_shutdown")
+    cg = facts.unit(facts.method("ouroboros_impl_connecting::Connecting", "Connection", "graceful_shutdown"))
     clos = [k for (_, _, _, k) in cg.closures_created()]
     inner = [c for k in clos if k in facts.fns for c in facts.fns[k].calls() if norm(c.decl or c.name).endswith("::graceful_shutdown")]
     ctx.check(len(inner) == 1, "Connecting::graceful_shutdown|delegates", "Connecting forwards graceful_shutdown to the inner auto connection",
               "Connecting::graceful_shutdown does not forward (found %d calls)" % len(inner), cg.where())
     # cancellation is honoured before reading
-    rv = facts.method("server::conn::auto::ReadVersion", "Future", "poll")
+    rv = facts.unit(facts.method("server::conn::auto::ReadVersion", "Future", "poll"))
     reads = rv.calls("hyper::rt::Read::poll_read")
 
     def not_cancelled(lab):
@@ -236,7 +236,7 @@ def C07_5(ctx, facts):
         oks = [bb for (bb, i, s) in rv.aggregates("Result", "Ok") if bb in reach]
         ctx.check(bool(errs) and not oks, "ReadVersion::poll|cancel-is-error", "a cancelled sniffer resolves with an error (the connection ends)", "cancelled sniffer does not end with Err", rv.where(a))
     ctx.floor("ReadVersion::poll|cancel-edge", len(rv.edges_where(cancelled)), 1, "test of the cancelled flag")
-    cn = facts.fn("server::conn::auto::ReadVersion::cancel")
+    cn = facts.unit(facts.fn("server::conn::auto::ReadVersion::cancel"))
     wrote = False
     for b in cn.live:
         for s in cn.stmts(b):
@@ -258,16 +258,16 @@ def c_res(c):
 
 
 def C07_6(ctx, facts):
-    s = facts.fn("server::CloseSender::send")
+    s = facts.unit(facts.fn("server::CloseSender::send"))
     takes = s.calls("std::option::Option::take", "core::option::Option::take")
     ctx.check(len(takes) >= 1 and any(any(r.kind == "arg" and r.desc.endswith(".0") for r in s.roots(c.args[0])) for c in takes), "CloseSender::send|drops-receiver",
               "send() takes (drops) the watch receiver", "send() does not drop the receiver", s.where())
     # the close future awaits Sender::closed
-    f = facts.method("server::CloseReciever", "IntoFuture", "into_future")
+    f = facts.unit(facts.method("server::CloseReciever", "IntoFuture", "into_future"))
     bodies = [facts.fns[k] for (_, _, _, k) in f.closures_created() if k in facts.fns]
     ok = any(c.is_("tokio::sync::watch::Sender::closed") for b in bodies for c in b.calls())
     ctx.check(ok, "CloseReciever::into_future|awaits-closed", "the close future awaits watch::Sender::closed()", "the close future does not await Sender::closed()", f.where())
-    cf = facts.method("server::CloseFuture", "Future", "poll")
+    cf = facts.unit(facts.method("server::CloseFuture", "Future", "poll"))
     pool2.waker_rule(ctx, cf, "CloseFuture::poll")
     ctx.ok("CloseFuture::poll|forwards", "CloseFuture::poll forwards to the boxed future") if any(norm(c.decl or c.name).endswith("::poll") for c in cf.calls()) else ctx.bad("CloseFuture::poll|forwards", "CloseFuture::poll does not poll its inner future", cf.where())
 
@@ -280,7 +280,7 @@ def C07_waker(ctx, facts):
         f = facts.method(*key)
         ctx.touched(f)
         n += pool2.waker_rule(ctx, f)
-    po = facts.fn("server::Serving::poll_once")
+    po = facts.unit(facts.fn("server::Serving::poll_once"))
     n += pool2.waker_rule(ctx, po)
     ctx.floor("server-poll-fns|pending-sites", n, 6, "Poll::Pending constructions in the server's poll functions")
 
